@@ -49,6 +49,19 @@ func (op Operator) Format(out io.Writer) error {
 			if _, err := out.Write([]byte("BI\n")); err != nil {
 				return err
 			}
+			// Without a length, readers find the end of the data by looking
+			// for an end-of-line followed by "EI".  If the data itself
+			// contains such a sequence, record the length (PDF 2.0 key /L)
+			// so that the image can be read back correctly.
+			if inlineImageNeedsLength(data) && dict["L"] == nil && dict["Length"] == nil {
+				withLength := make(pdf.Dict, len(dict)+1)
+				for key, val := range dict {
+					withLength[key] = val
+				}
+				withLength["L"] = pdf.Integer(len(data))
+				dict = withLength
+			}
+
 			// sort keys for deterministic output
 			keys := make([]pdf.Name, 0, len(dict))
 			for key := range dict {
@@ -107,4 +120,21 @@ func (op Operator) Format(out io.Writer) error {
 	}
 
 	return nil
+}
+
+// inlineImageNeedsLength reports whether inline image data, written between
+// "ID" and an end-of-line followed by "EI", would be cut short by a reader
+// which scans for the first end-of-line + "EI" + non-regular character.
+func inlineImageNeedsLength(data []byte) bool {
+	for i := 0; i+2 < len(data); i++ {
+		if (data[i] != '\n' && data[i] != '\r') || data[i+1] != 'E' || data[i+2] != 'I' {
+			continue
+		}
+		// at the end of the data, "EI" is followed by the end-of-line
+		// which precedes the real end marker
+		if i+3 == len(data) || class[data[i+3]] != regular {
+			return true
+		}
+	}
+	return false
 }
